@@ -66,6 +66,10 @@ def showCtxs (l : List Ctx) : String :=
 /-- The hook's view of contexts: a grouped context has `type: Group` (2) whatever it was. -/
 def hookView (l : List Ctx) : List Ctx := l.map fun c => if c.group != 0 then { c with typ := 2 } else c
 
+/-- A v0 hook sees only `{"binding": …}` (no type, no group) for non-kubernetes contexts. -/
+def hookViewV (version : Nat) (l : List Ctx) : List Ctx :=
+  if version == 0 then l.map fun c => { c with typ := 4, group := 0 } else hookView l
+
 def showIds (l : List Task) : String := showNats (l.map (·.id))
 
 def bool? : String → Option Bool
@@ -113,8 +117,8 @@ def curItems (cfg : Cfg) (q : QSt) : List Task :=
 
 /-- The property clauses on one observed hook-run end (see the header). `s0` = queue state when the
 handler was entered, `app` = tasks appended while the hook ran. -/
-def oracleEnd (s0 : Retry.State) (initial : Nat) (ok : Bool) (task : Nat) (ctxs : List Ctx) (sleep : Nat)
-    (after : List Task) : String :=
+def oracleEnd (view : List Ctx → List Ctx) (s0 : Retry.State) (initial : Nat) (ok : Bool) (task : Nat)
+    (ctxs : List Ctx) (sleep : Nat) (after : List Task) : String :=
   match s0.items with
   | [] => "bad-op nothing-to-run"
   | t :: _ =>
@@ -134,7 +138,7 @@ def oracleEnd (s0 : Retry.State) (initial : Nat) (ok : Bool) (task : Nat) (ctxs 
         match after with
         | h :: _ =>
           if h.id != t.id then "false failed-task-not-kept-at-head"
-          else if hookView h.ctxs != ctxs then s!"false retried-contexts-differ want={showCtxs ctxs}"
+          else if view h.ctxs != ctxs then s!"false retried-contexts-differ want={showCtxs ctxs}"
           else if sleep < initial then "false backoff-shorter-than-initial"
           else "true"
         | [] => "false failed-task-not-kept-at-head"
@@ -194,7 +198,7 @@ def step (st : St) (toks : List String) : St × String :=
           let h := taskHandleHookRun st.cfg q.s.items t true
           match h.ran with
           | none => (st', s!"norun task={t.id} queue={showIds h.items}")
-          | some cs => (st', s!"exec task={t.id} hook={t.hook} ctxs={showCtxs (hookView cs)} queue={showIds h.items}")
+          | some cs => (st', s!"exec task={t.id} hook={t.hook} ctxs={showCtxs (hookViewV (st.cfg.version t.hook) cs)} queue={showIds h.items}")
   | "end" :: rest =>
     match natKv "q" rest 0, bool? ((kv? "ok" rest).getD "1") with
     | some qn, some ok =>
@@ -258,7 +262,10 @@ def step (st : St) (toks : List String) : St × String :=
       | some (s0, _) =>
         -- remember what the hook was shown: the retry must show it again (up to group compaction)
         let st' := st.setQ qn { st.q qn with lastObs := if ok then [] else ctxs }
-        (st', oracleEnd s0 st.boInit ok task ctxs sleep after)
+        let ver := match s0.items with
+          | t :: _ => st.cfg.version t.hook
+          | [] => 1
+        (st', oracleEnd (hookViewV ver) s0 st.boInit ok task ctxs sleep after)
     | _, _, _, _, _, _, _ => (st, "bad-op")
   | _ => (st, "bad-op")
 
